@@ -277,23 +277,61 @@ def e2e(ctx, objdir):
                           {"mode": "e2e-host", "DIR": a[0], "DIR.old": b[0],
                            "before": jsonable(first[0]), "after": jsonable(end[0])}, True)
         ctx.case(key=("e2e-host", a[0], b[0]), tags=["e2e-host:DIR=" + a[0], "e2e-host:OLD=" + b[0]])
-    # live mode: removes only its own temporary directory
-    work = os.path.join(root, "live")
-    os.mkdir(work)
-    materialise(os.path.join(work, "keep"), T_dir([("notes.txt", T_file(b"x"))]))
-    tmp_before = set(x for x in os.listdir("/tmp") if x.startswith("uftrace-live-"))
-    before = snapshot(work)
-    rc, out, err = sh(["timeout", "30", uft, "live", "--no-pager", "--no-event", "--libmcount-path=" + objdir, exe],
-                      timeout=60, cwd=work)
-    after = snapshot(work)
-    tmp_after = set(x for x in os.listdir("/tmp") if x.startswith("uftrace-live-"))
-    if before != after:
-        ctx.violation("live mode changed the working directory tree", {"before": jsonable(before), "after": jsonable(after)}, True)
-    if tmp_after - tmp_before:
-        ctx.violation("live mode left its temporary directory behind", {"left": sorted(tmp_after - tmp_before)}, True)
-    if "foo" not in out:
-        ctx.broken("e2e live run produced no trace output (rc=%d): %s" % (rc, (out + err)[-300:]))
-    ctx.case(key=("e2e", "live"), tags=["e2e:live"])
+    # live mode: removes only its own temporary directory - normal, crashing, failing and interrupted runs
+    crash_src = os.path.join(root, "c.c")
+    open(crash_src, "w").write("int foo(int x){return x+1;} int main(void){foo(1); *(volatile int*)0 = 1; return 0;}\n")
+    crash_exe = os.path.join(root, "c")
+    sh(["gcc", "-pg", "-o", crash_exe, crash_src], check=True)
+    slow_src = os.path.join(root, "s.c")
+    open(slow_src, "w").write("#include <unistd.h>\nint foo(int x){return x+1;} int main(void){foo(1); sleep(20); return 0;}\n")
+    slow_exe = os.path.join(root, "s")
+    sh(["gcc", "-pg", "-o", slow_exe, slow_src], check=True)
+
+    def ours(name):
+        """a /tmp/uftrace-live-* directory belongs to this check iff its info file names one of our programs
+        (other processes of the sandbox may run `uftrace live` at the same time)"""
+        try:
+            data = open(os.path.join("/tmp", name, "info"), "rb").read()
+        except OSError:
+            return False
+        return root.encode() in data
+    variants = [("normal", [exe], None), ("crash", [crash_exe], None), ("no-such-program", [os.path.join(root, "nope")], None),
+                ("not-elf", [src], None), ("sigterm", [slow_exe], 15), ("sigint", [slow_exe], 2)]
+    for vname, argv, sig in variants:
+        work = os.path.join(root, "live-" + vname)
+        os.mkdir(work)
+        materialise(os.path.join(work, "keep"), T_dir([("notes.txt", T_file(b"x"))]))
+        materialise(os.path.join(work, "uftrace.data"), T_dir([("mine.txt", T_file(b"foreign"))]))
+        tmp_before = set(x for x in os.listdir("/tmp") if x.startswith("uftrace-live-"))
+        before = snapshot(work)
+        cmd = ["timeout", "30", uft, "live", "--no-pager", "--no-event", "--libmcount-path=" + objdir] + argv
+        if sig is None:
+            rc, out, err = sh(cmd, timeout=60, cwd=work)
+        else:
+            import subprocess
+            import time as _t
+            pr = subprocess.Popen(cmd[2:], cwd=work, stdout=subprocess.PIPE, stderr=subprocess.PIPE)
+            _t.sleep(1.5)
+            pr.send_signal(sig)
+            try:
+                o_, e_ = pr.communicate(timeout=40)
+            except subprocess.TimeoutExpired:
+                pr.kill()
+                o_, e_ = pr.communicate()
+                ctx.violation("uftrace live did not terminate after signal %d" % sig, {"variant": vname}, True)
+            rc, out, err = pr.returncode, o_.decode(errors="replace"), e_.decode(errors="replace")
+        after = snapshot(work)
+        left = [x for x in os.listdir("/tmp") if x.startswith("uftrace-live-") and x not in tmp_before and ours(x)]
+        if before != after:
+            ctx.violation("live mode (%s) changed the working directory tree" % vname,
+                          {"variant": vname, "before": jsonable(before), "after": jsonable(after)}, True)
+        if left:
+            ctx.violation("live mode (%s) left its temporary directory behind" % vname, {"variant": vname, "left": sorted(left)}, True)
+            for x in left:
+                shutil.rmtree(os.path.join("/tmp", x), ignore_errors=True)
+        if vname == "normal" and "foo" not in out:
+            ctx.broken("e2e live run produced no trace output (rc=%d): %s" % (rc, (out + err)[-300:]))
+        ctx.case(key=("e2e", "live", vname), tags=["e2e:live:" + vname])
     return steps, hists
 
 
